@@ -5,7 +5,7 @@ import "strings"
 // C01: what Check reports is real.
 
 var alphaReport = []uint8{opReturn, opDrawBool, opErrorf, opFatalA, opFatalIfBit, opSkip, opPanicStr, opDrawFiltered}
-var alphaReportDeep = []uint8{opReturn, opDrawBool, opErrorf, opFatalA, opFatalB, opFatalIfBit, opIfBit, opSkip, opPanicStr, opDrawDistinct, opDrawFiltered}
+var alphaReportDeep = []uint8{opReturn, opDrawBool, opErrorf, opFatalA, opFatalB, opFatalIfBit, opFatalVal, opIfBit, opSkip, opPanicStr, opDrawDistinct, opDrawFiltered}
 
 func siteMessage(site int) string {
 	switch site {
@@ -68,6 +68,9 @@ func H_C01_checkTB() {
 	vassert(!strings.Contains(msg, "flaky test"), "C01: a deterministic property is called flaky")
 	final := p.last()
 	vassert(final.signals > 0, "C01: the final test case presented as the counterexample does not falsify the property")
+	if final.failMsg != "" {
+		vassert(strings.Contains(msg, final.failMsg), "C01: the failure named in the message is not the one the final test case fails with")
+	}
 	if m := siteMessage(final.fatalAt); m != "" {
 		vassert(strings.Contains(msg, m), "C01: the failure named in the message is not the one the final test case fails with")
 	}
